@@ -364,6 +364,10 @@ def probe_recipes(family, tier):
             for sgn in (-1.0, 1.0):
                 for k in seeds:
                     out.append({"file": f, "variant": "probe", "param": f"{q}:{sgn * d:+g}", "seed": k})
+                # the same quantity much closer to its threshold (a threshold that drifts by a rounded constant,
+                # e.g. cos(50 deg) written as 0.64, moves by ~0.2 degrees)
+                for k in (range(4) if tier == "quick" else range(6)):
+                    out.append({"file": f, "variant": "probe", "param": f"{q}:{sgn * d / 6:+g}", "seed": k})
                 if tier != "quick":
                     for k in range(3):
                         out.append({"file": f, "variant": "probe", "param": f"{q}:{sgn * d / 20:+g}", "seed": k})
